@@ -65,8 +65,9 @@ structure Sys where
   procs : List Proc := []
 deriving Repr, DecidableEq
 
-def init (cfgs : List Cfg) : Sys :=
-  { procs := cfgs.map fun c => { etDraws := c.etDraws, fmDraws := c.fmDraws, nAddr := c.nAddr, attachFails := c.attachFails } }
+/-- all participants before `run`; `fm0` = an FMMU bitmap file left by an earlier session (it is never unlinked) -/
+def init (cfgs : List Cfg) (fm0 : Option (List Nat) := none) : Sys :=
+  { fm := fm0, procs := cfgs.map fun c => { etDraws := c.etDraws, fmDraws := c.fmDraws, nAddr := c.nAddr, attachFails := c.attachFails } }
 
 /-! ### helpers -/
 
@@ -151,8 +152,8 @@ def stepStart (s : Sys) (i : Nat) (p : Proc) : Sys :=
   | .createMap => setP s i { emit p "create_map" with pc := .removeOld, progs := some i }
   | .removeOld =>
     match s.pin with
-    | some _ => setP { s with pin := none } i { emit p "remove_old:ok" with pc := .attach }
-    | none => setP s i { emit p "remove_old:enoent" with pc := .attach }
+    | some _ => setP { s with pin := none } i { emit p "remove_pin:ok" with pc := .attach }
+    | none => setP s i { emit p "remove_pin:enoent" with pc := .attach }
   | .attach =>
     if p.attachFails then setP s i { emit p "attach:fail" with pc := .excRmtree }
     else setP { s with attached := some i } i { emit p "attach" with pc := .objPin }
@@ -197,8 +198,9 @@ def stepFiles (s : Sys) (i : Nat) (p : Proc) : Sys :=
   | .fmSet =>
     match pickNo p.fmBuf p.fmDraws with
     | some n =>
-      setP { s with fm := some (pwriteByte (s.fm.getD []) (n / 8) (p.fmBuf.getD (n / 8) 0 ||| 2 ^ (n % 8))) } i
-        { emit p s!"fm_set:{n}" with pc := .fmUnlock, fmNo := n }
+      let v := p.fmBuf.getD (n / 8) 0 ||| 2 ^ (n % 8)
+      setP { s with fm := some (pwriteByte (s.fm.getD []) (n / 8) v) } i
+        { emit p s!"fm_pwrite:{n / 8}:{v}" with pc := .fmUnlock, fmNo := n }
     | none => s
   | .fmUnlock => setP { s with fmLock := none } i { emit p "fm_unlock" with pc := .running }
   | _ => s
@@ -237,8 +239,9 @@ def stepExit (s : Sys) (i : Nat) (p : Proc) : Sys :=
       setP s i { emit p "fm_rread:ok" with pc := .fmRClear, fmBuf := [f.getD (rmNo p / 8) 0] }
     else setP s i { emit p "fm_rread:short" with pc := .fmRUnlock, exc := true }
   | .fmRClear =>
-    setP { s with fm := some (pwriteByte (s.fm.getD []) (rmNo p / 8) (clearBit (p.fmBuf.getD 0 0) (rmNo p % 8))) } i
-      { emit p s!"fm_rclear:{rmNo p}" with pc := .fmRUnlock }
+    let v := clearBit (p.fmBuf.getD 0 0) (rmNo p % 8)
+    setP { s with fm := some (pwriteByte (s.fm.getD []) (rmNo p / 8) v) } i
+      { emit p s!"fm_pwrite:{rmNo p / 8}:{v}" with pc := .fmRUnlock }
   | .fmRUnlock => setP { s with fmLock := none } i { emit p "fm_unlock" with pc := if p.exc then .failed else .done }
   | _ => s
 
@@ -247,5 +250,73 @@ def step (s : Sys) (i : Nat) : Sys :=
     let p := getP s i
     stepExit (stepFiles (stepStart s i p) i p) i p
   else s
+
+def run (s : Sys) (sched : List Nat) : Sys := sched.foldl step s
+
+/-! ### the clauses of the property as state predicates -/
+
+/-- holds a member file `<et>.lock` in the lock directory (from the successful `open(…,'x')` /
+`rename` until its `os.remove`) -/
+def Pc.member : Pc → Bool
+  | .objGet1 | .objGet2 | .excRemove | .createMap | .removeOld | .attach | .objPin | .excRmtree
+  | .mbxOpen | .mbxWrite | .mbxReopen | .fmOpen | .fmWrite | .fmLock | .fmRead | .fmFix | .fmTrunc | .fmSet
+  | .fmUnlock | .running | .removeMember => true
+  | _ => false
+
+/-- the install section: from the successful `rename` to `obj_pin` -/
+def Pc.install : Pc → Bool
+  | .createMap | .removeOld | .attach | .objPin => true
+  | _ => false
+
+/-- `[a, a+n)` and `[b, b+m)` are disjoint -/
+def disjoint (a n b m : Nat) : Bool := a + n ≤ b || b + m ≤ a
+
+/-- logical addresses a running participant may use: its process window start up to the end of the
+last sync-group block `get_fmmu_addr` handed out -/
+def winLo (p : Proc) : Nat := winBase p.fmNo
+def winLen (p : Proc) : Nat := (p.nAddr + 1) * fmGroup
+
+def EthertypesDistinct (s : Sys) : Prop :=
+  ∀ i j, i < s.procs.length → j < s.procs.length → i ≠ j →
+    (getP s i).pc.member = true → (getP s j).pc.member = true → (getP s i).et ≠ (getP s j).et
+
+def SingleInstaller (s : Sys) : Prop :=
+  ∀ i j, i < s.procs.length → j < s.procs.length → i ≠ j →
+    ¬ ((getP s i).pc.install = true ∧ (getP s j).pc.install = true)
+
+def InstalledWhileRunning (s : Sys) : Prop :=
+  ∀ i, i < s.procs.length → (getP s i).pc = .running →
+    ∃ m, s.attached = some m ∧ s.pin = some m ∧ (getP s i).progs = some m
+
+def FmmuWindowsDisjoint (s : Sys) : Prop :=
+  ∀ i j, i < s.procs.length → j < s.procs.length → i ≠ j →
+    (getP s i).pc = .running → (getP s j).pc = .running →
+    disjoint (winLo (getP s i)) (winLen (getP s i)) (winLo (getP s j)) (winLen (getP s j)) = true
+
+/-- decidable versions (driver, refutations) -/
+def allPairs (n : Nat) (f : Nat → Nat → Bool) : Bool :=
+  (List.range n).all fun i => (List.range n).all fun j => i == j || f i j
+
+def ethertypesDistinctB (s : Sys) : Bool :=
+  allPairs s.procs.length fun i j =>
+    !((getP s i).pc.member && (getP s j).pc.member) || (getP s i).et != (getP s j).et
+
+def singleInstallerB (s : Sys) : Bool :=
+  allPairs s.procs.length fun i j => !((getP s i).pc.install && (getP s j).pc.install)
+
+def installedB (s : Sys) : Bool :=
+  (List.range s.procs.length).all fun i =>
+    (getP s i).pc != .running ||
+      (s.attached.isSome && s.attached == s.pin && (getP s i).progs == s.pin)
+
+def windowsDisjointB (s : Sys) : Bool :=
+  allPairs s.procs.length fun i j =>
+    !((getP s i).pc == .running && (getP s j).pc == .running) ||
+      disjoint (winLo (getP s i)) (winLen (getP s i)) (winLo (getP s j)) (winLen (getP s j))
+
+/-- first prefix length of the schedule after which `bad` holds -/
+def firstBad (bad : Sys → Bool) (s : Sys) : List Nat → Nat → Option Nat
+  | [], k => if bad s then some k else none
+  | i :: r, k => if bad s then some k else firstBad bad (step s i) r (k + 1)
 
 end Ebv.Parallel
